@@ -22,7 +22,8 @@ EXPLANATION = (
     "followed by (cont if the LAST element is true else end); the third field is the node. Swapped style fields, the wrong "
     "slice, a missing last segment are each reported with the provenance found. V3 text assembly (str(), by_attr): the "
     "first line of a value is prefixed with row.pre and every further line with row.fill, and an empty value still gives "
-    "one line. Not decided: the last-marker helper itself (that exactly the final element is flagged), equal widths of a "
+    "one line; str() takes its lines from repr(row.node). V4 the name tables used by the node reprs are sequences at every "
+    "call site (a string would turn the membership test into a substring test). Not decided: the last-marker helper itself (that exactly the final element is flagged), equal widths of a "
     "custom style, Node/AnyNode reprs. An implementation that builds the prefixes differently (e.g. incrementally per level) "
     "is answered with 'cannot follow' (ANALYSIS-ERROR), not with a verdict."
 )
@@ -300,23 +301,39 @@ def run(ctx):
                 ctx.inst("V1", nxt, c, "recursion on the child")
             else:
                 ctx.viol("V1", nxt, c, "the recursion renders `%s`, not the child taken from the children" % (norm(a_node) if a_node is not None else "?"))
-            good = False
-            if isinstance(a_conts, ast.BinOp) and isinstance(a_conts.op, ast.Add) and isinstance(a_conts.left, ast.Name) and a_conts.left.id == contsvar \
-                    and isinstance(a_conts.right, ast.Tuple) and len(a_conts.right.elts) == 1:
-                el = a_conts.right.elts[0]
-                if isinstance(el, ast.UnaryOp) and isinstance(el.op, ast.Not) and isinstance(el.operand, ast.Name) and el.operand.id == last_var:
-                    good = True
-                    ctx.inst("V1", nxt, a_conts, "position tuple extended by `not is_last`")
+            hs_c = cfg_nodes_containing(cfg, c)
+            try:
+                alts = _conts_alts(cfg, a_conts, hs_c[0] if hs_c else None, contsvar, last_var)
+            except _Undecided as exc:
+                alts = None
+                undecided.append("position tuple passed to the recursion: %s" % exc)
+            if alts is not None:
+                bad = [(el, cond) for el, cond in alts if not (el == "notlast" or (isinstance(el, bool) and cond is not None and el == (not cond)))]
+                if not alts:
+                    ctx.viol("V1", nxt, c, "the position tuple passed down is `%s`, not the node's own tuple extended by one element for the child" % (
+                        norm(a_conts) if a_conts is not None else "?"), construct="__next: continues argument")
+                elif bad:
+                    el, cond = bad[0]
+                    ctx.viol("V1", nxt, a_conts, "the position tuple is extended by %s%s; specified: true exactly when the child has a following "
+                             "sibling (`not is_last`)" % ({"islast": "`is_last`", "notlast": "`not is_last`"}.get(el, repr(el)),
+                                                         "" if cond is None else " when is_last is %s" % cond),
+                             construct="__next: continues element %s" % (el,))
                 else:
-                    ctx.viol("V1", nxt, a_conts, "the position tuple is extended by `%s`; specified: true exactly when the child has a following "
-                             "sibling (`not is_last`)" % norm(el), construct="__next: continues element %s" % norm(el))
-                    good = True
-            if not good:
-                ctx.viol("V1", nxt, c, "the position tuple passed down is `%s`, not the node's own tuple extended by one element for the child" % (
-                    norm(a_conts) if a_conts is not None else "?"), construct="__next: continues argument")
+                    ctx.inst("V1", nxt, a_conts, "position tuple extended by `not is_last`")
     # depth guard by offset dataflow
     if levelvar is not None:
         _depth_rule(ctx, typer, nxt, cfg, levelvar, selfn, rec_calls, it)
+    else:
+        # no level parameter: whatever limits the descent is not counted from the start node
+        lim = [x for x in walk_own(nxt.node) if isinstance(x, ast.Compare) and any(norm(y) == "%s.maxlevel" % selfn for y in [x.left] + list(x.comparators))
+               and not isinstance(x.ops[0], (ast.Is, ast.IsNot))]
+        if lim:
+            ctx.viol("V1", nxt, lim[0], "the depth limit is compared with `%s`, which is not a level counted from the start node (the row "
+                     "generator carries no level): for a start node below the root maxlevel cuts at the wrong depth" % norm(lim[0]),
+                     construct="__next: depth limit not relative to the start node")
+        else:
+            ctx.viol("V1", nxt, nxt.node, "the row generator has no level parameter and no depth limit: maxlevel is ignored",
+                     construct="__next: no depth limit")
     # __iter__ starts at the start node with an empty tuple
     starts = [c for c in walk_own(it.node) if isinstance(c, ast.Call) and norm(c.func) == "%s.__next" % it.selfname]
     if len(starts) == 1 and len(starts[0].args) >= 2 and norm(starts[0].args[0]) == "%s.node" % it.selfname \
@@ -397,11 +414,67 @@ def run(ctx):
         raise AnalysisError("anchor: no Row(...) construction found in anytree/render.py")
     # ------------------------------------------------------------------ V3
     _text_rule(ctx, typer, p, undecided)
+    # ------------------------------------------------------------------ V4 (reprs: name tables are sequences)
+    from .common import rule_mixed_membership
+    scope = [g for g in p.all_funcs if g.module.relpath in ("anytree/node/util.py", "anytree/node/node.py", "anytree/node/anynode.py",
+                                                            "anytree/node/symlinknode.py", RENDER)]
+    rule_mixed_membership(ctx, typer, scope, "V4")
     if undecided and not ctx.findings:
         raise AnalysisError("C09 cannot follow this implementation of RenderTree: %s" % "; ".join(undecided[:3]))
     ctx.floor("V1", 6)
     ctx.floor("V2", 2)
     ctx.floor("V3", 2)
+
+
+def _conts_alts(cfg, e, at, contsvar, last_var, depth=0):
+    """[(element, condition)]: what the position tuple passed to a child is extended by; element is 'notlast', 'islast' or
+    a constant bool, condition None or the value of is_last under which this alternative is passed"""
+    from .common import reaching_def_nodes
+    if e is None or depth > 6:
+        raise _Undecided("not followed")
+    if isinstance(e, ast.BinOp) and isinstance(e.op, ast.Add) and isinstance(e.left, ast.Name) and e.left.id == contsvar \
+            and isinstance(e.right, ast.Tuple):
+        if len(e.right.elts) != 1:
+            return []
+        el = e.right.elts[0]
+        if isinstance(el, ast.UnaryOp) and isinstance(el.op, ast.Not) and isinstance(el.operand, ast.Name) and el.operand.id == last_var:
+            return [("notlast", None)]
+        if isinstance(el, ast.Name) and el.id == last_var:
+            return [("islast", None)]
+        if isinstance(el, ast.Constant) and isinstance(el.value, bool):
+            return [(el.value, None)]
+        return [(norm(el), None)]
+    if isinstance(e, ast.IfExp):
+        t, neg = e.test, False
+        if isinstance(t, ast.UnaryOp) and isinstance(t.op, ast.Not):
+            t, neg = t.operand, True
+        if isinstance(t, ast.Name) and t.id == last_var:
+            a = [(el, (not neg)) for el, _ in _conts_alts(cfg, e.body, at, contsvar, last_var, depth + 1)]
+            b = [(el, neg) for el, _ in _conts_alts(cfg, e.orelse, at, contsvar, last_var, depth + 1)]
+            return a + b
+        raise _Undecided("choice on `%s`" % norm(e.test))
+    if isinstance(e, ast.Name) and at is not None:
+        ds = reaching_def_nodes(at, e.id)
+        if ds and len(ds) == 1:
+            return _conts_alts(cfg, ds[0].ast.value, ds[0], contsvar, last_var, depth + 1)
+        if ds and len(ds) == 2:
+            g1 = {id(c): (c, o) for c, o, _ in cfg.guards_of(ds[0])}
+            g2 = {id(c): (c, o) for c, o, _ in cfg.guards_of(ds[1])}
+            split = [k for k in g1 if k in g2 and g1[k][1] != g2[k][1]]
+            if len(split) == 1:
+                cond, o1 = g1[split[0]]
+                neg = False
+                if isinstance(cond, ast.UnaryOp) and isinstance(cond.op, ast.Not):
+                    cond, neg = cond.operand, True
+                if isinstance(cond, ast.Name) and cond.id == last_var:
+                    v1 = bool(o1) != neg
+                    a = [(el, v1) for el, _ in _conts_alts(cfg, ds[0].ast.value, ds[0], contsvar, last_var, depth + 1)]
+                    b = [(el, not v1) for el, _ in _conts_alts(cfg, ds[1].ast.value, ds[1], contsvar, last_var, depth + 1)]
+                    return a + b
+        raise _Undecided("definition of `%s`" % e.id)
+    if isinstance(e, ast.Name) and e.id == contsvar:
+        return []
+    return []
 
 
 def _callee(typer, func, call):
@@ -471,6 +544,12 @@ def _depth_rule(ctx, typer, nxt, cfg, levelvar, selfn, rec_calls, it):
             return None
         if isinstance(e, ast.Name) and e.id == levelvar:
             return off
+        if isinstance(e, ast.Name):
+            from .common import reaching_def_nodes
+            ds = reaching_def_nodes(at, e.id)
+            if ds and len(ds) == 1:
+                return value(ds[0].ast.value, ds[0])
+            return None
         if isinstance(e, ast.BinOp) and isinstance(e.op, (ast.Add, ast.Sub)) and isinstance(e.left, ast.Name) and e.left.id == levelvar \
                 and isinstance(e.right, ast.Constant) and isinstance(e.right.value, int):
             return off + (e.right.value if isinstance(e.op, ast.Add) else -e.right.value)
@@ -637,4 +716,14 @@ def _text_rule(ctx, typer, p, undecided):
                      construct="%s: different line lists" % f.qual)
         else:
             ctx.viol("V3", f, f.node, "; ".join(why), construct="%s: %s" % (f.qual, "; ".join(why)[:80]))
+    st = p.func("RenderTree", "__str__")
+    ctx.touch(st)
+    reprs = [c for c in ast.walk(st.node) if isinstance(c, ast.Call) and isinstance(c.func, ast.Name) and c.func.id == "repr" and c.args
+             and isinstance(c.args[0], ast.Attribute) and c.args[0].attr == "node"]
+    if reprs:
+        ctx.inst("V3", st, reprs[0], "str(RenderTree) prints the lines of repr(row.node)")
+    else:
+        ctx.viol("V3", st, st.node, "str(RenderTree) does not take its lines from repr(row.node): the node's str()/attribute "
+                 "formatter is used instead, so nodes whose __str__ differs from __repr__ (or that are sequences) print differently",
+                 construct="RenderTree.__str__: no repr(row.node)")
     return n
